@@ -118,6 +118,33 @@ def rule_source_verbatim(chk: Check, ix: Index, rule_id: str = "Z5-source-verbat
                     f"errors then refers to the modified copy (e.g. leading blanks stripped in eval mode)")
 
 
+def rule_z6(chk: Check, ix: Index, rule_id: str = "Z6-every-line-remembered"):
+    """File mode re-reads the file for error text; string mode has only what the token stream carried.  For the two to agree every
+    physical line must reach the line cache: either the cache is fed by the line reader itself, or every way the scanner has of
+    using up a physical line emits a token that carries that line.  A line holding nothing but a backslash continuation is used
+    up without a token."""
+    ps = ix.get("Parser.parse_string")
+    fed_by_reader = any(isinstance(n, ast.keyword) and n.arg in ("lines", "source_lines") for n in ast.walk(ps.node)) or \
+        any(isinstance(n, ast.FunctionDef) for n in ast.walk(ps.node) if n is not ps.node)
+    chk.count(rule_id)
+    if fed_by_reader:
+        chk.ok(rule_id, "Parser.parse_string:reader-feeds-cache", ps.where)
+        return
+    npm = ix.get("next_psuedo_matches")
+    from ..pyflow import stmt_paths
+    silent = []
+    try:
+        for pth in stmt_paths(list(npm.node.body), split_bool=True):
+            conds = {x[1]: x[2] for x in pth if x[0] == "cond"}
+            if conds.get("match.lastgroup == 'End'") is True and pth[-1][1] == "return" and pth[-1][2] in ("None", ""):
+                silent.append("End")
+    except AnalysisError as e:
+        raise AnalysisError(f"Z6: next_psuedo_matches not analysable: {e}")
+    chk.require(not silent, rule_id, "next_psuedo_matches:End:no-token", npm.where,
+                "a backslash continuation is consumed without a token, so a physical line that holds nothing else never reaches the "
+                "string-mode line cache: error text over such a line differs between parse_string and parse_file")
+
+
 def rule_z2_z3(chk: Check, ix: Index):
     opens = []
     for q, f in sorted(ix.funcs.items()):
@@ -251,6 +278,7 @@ def run(chk: Check):
     ix = Index()
     rule_z1(chk, ix)
     rule_z2_z3(chk, ix)
+    rule_z6(chk, ix)
     rule_source_verbatim(chk, ix)
     rule_z4(chk, ix)
     # string mode serves error text from token `line`s: string tokens must carry their lines (C08 L2); the cache must be
